@@ -168,9 +168,13 @@ fn zip_impl(_this: CelValue, args: Vec<CelValue>) -> CelValue {
     ret_val.into()
 }
 
-fn now_impl(_this: CelValue, args: Vec<CelValue>) -> CelValue {
+fn now_impl(this: CelValue, args: Vec<CelValue>) -> CelValue {
     if !args.is_empty() {
         return CelValue::from_err(CelError::argument("now() expects no arguments"));
+    }
+
+    if !this.is_null() {
+        return CelValue::from_err(CelError::argument("now() is not a method"));
     }
 
     CelValue::from_timestamp(chrono::Utc::now())
